@@ -493,7 +493,6 @@ func prop(c Case) error {
 	return nil
 }
 
-
 type scanValuer interface {
 	sql.Scanner
 	driver.Valuer
@@ -727,4 +726,7 @@ var spec = run.Spec[Case]{ID: "C03", Name: "wkb", Gen: genCase, Prop: prop, Clas
 
 func TestPropWKB(t *testing.T) { run.Generated(t, spec) }
 func TestRegress(t *testing.T) { run.Regress(t, spec) }
-func TestReplay(t *testing.T)  { run.ReplayOne(t, spec) }
+func TestReplay(t *testing.T) {
+	run.ReplayOne(t, spec)
+	run.ReplayOne(t, bigSpec)
+}
